@@ -9,7 +9,7 @@ LEVEL = "exploration"
 ENGINE = "E1 store"
 TECHNIQUE = ("Hypothesis-generated raw HTTP requests to every route of the real HTTPServer resource tree (in-memory transport): Authorization header variants (missing, wrong "
              "swissnum, prefix/suffix of the right one, wrong scheme, undecodable, duplicated) x X-Tahoe-Authorization variants (missing, extra, duplicated, malformed base64, "
-             "empty, wrong length, wrong value, correct) x bodies, interleaved with a legitimate client's uploads and mutable writes; oracle = status class + byte-for-byte "
+             "empty, wrong length, wrong value, correct) x bodies, interleaved with a legitimate client's uploads and mutable writes (the mutable share optionally deleted and re-created under another write enabler beforehand); oracle = status class + byte-for-byte "
              "snapshot of the server's directory and in-progress uploads + scan of the response for share bytes")
 RULE = ("each case: a server holding a complete immutable share, an in-progress upload owned by another client (its own upload secret) and a mutable slot (write enabler W); then "
         "1-6 generated requests. Oracle: Authorization not carrying the exact swissnum => status 401/400, the response contains none of the stored share bytes, and the "
